@@ -1160,6 +1160,34 @@ class RootG10:
     bs: list[bool]
 
 
+class EG11(ABC):
+    pass
+
+
+@dataclass
+class LeafG11(EG11):
+    f: Annotated[float, FloatRange(0, 9)]  # bounds written as ints: the field must still hold a float
+
+
+@dataclass
+class NegG11(EG11):
+    e: EG11
+
+
+class EG12(ABC):
+    pass
+
+
+@dataclass
+class LeafG12(EG12):
+    pass
+
+
+@dataclass
+class PairG12(EG12):
+    t: tuple[int, EG12]  # the recursive mention is the SECOND tuple component
+
+
 # members whose annotations are real objects (not strings re-evaluated on every get_type_hints call): the
 # same Annotated[...] object is seen by every part of the library, as in modules without
 # `from __future__ import annotations`
@@ -1201,6 +1229,8 @@ def extra_family():
         ("H1-evaluated-range-5-9", [EH1, LitH1, NegH1], EH1, "as G1, annotations held as objects (evaluated once)"),
         ("H2-evaluated-base-refinements", [RootH2], RootH2, "IntList / StringSizeBetween / VarRange / FloatRange, annotations held as objects"),
         ("H3-evaluated-interval-list", [EH1, LitH1, NegH1, RootH3], RootH3, "IntervalRange tuple and sized list, annotations held as objects"),
+        ("G11-float-int-bounds", [EG11, LeafG11, NegG11], EG11, "FloatRange(0, 9) with int-written bounds on a float field"),
+        ("G12-tuple-rec-second", [EG12, LeafG12, PairG12], EG12, "recursion through the second component of a tuple[int, E] field"),
         ("G9-layers-unreachable", [EG9, MidG9, LeafG9, NodeG9, IslandG9], EG9, "two abstract layers, all abstract types recursive, one unreachable class"),
     ]
 
